@@ -165,9 +165,24 @@ static void *asm_mmap_file(char *asm_file, size_t *str_len) {
 
   // NOLINTNEXTLINE
   FAIL_SYS(fstat(fd, &file_stat), "failed to get file stats\n", MAP_FAILED);
-  // map file contents to a string
-  *str_len = file_stat.st_size;
-  void *str = mmap(NULL, *str_len, PROT_READ, MAP_PRIVATE, fd, 0);
+  // read the file contents into a mapping that is one byte longer than the
+  // file: the assembler needs a terminated string, which a mapping of exactly
+  // st_size bytes does not give when the size is a multiple of the page size
+  // (and a mapping of zero bytes, for an empty file, is refused)
+  size_t file_len = (size_t)file_stat.st_size;
+  *str_len = file_len + 1;
+  char *str = mmap(NULL, *str_len, PROT_READ | PROT_WRITE,
+                   MAP_PRIVATE | MAP_ANONYMOUS, -1, 0);
+  if (str != MAP_FAILED) {
+    size_t got = 0;
+    ssize_t n = 0;
+    while (got < file_len && (n = read(fd, str + got, file_len - got)) > 0)
+      got += (size_t)n;
+    if (got != file_len) {
+      munmap(str, *str_len);
+      str = MAP_FAILED;
+    }
+  }
   close(fd);
   return str;
 }
